@@ -577,6 +577,9 @@ func (c *Cluster) mutateResultLocked(mut *pb.MutationProto, marker string, cond 
 	case pb.MutationProto_INCREMENT:
 		v := make([]byte, 8)
 		binary.BigEndian.PutUint64(v, uint64(EchoInc(mut.GetRow(), marker)))
+		if c.IncValue != nil {
+			v = c.IncValue
+		}
 		r, cb := c.cellsResultLocked([]wire.Cell{{Row: mut.GetRow(), Family: []byte("f"), Qualifier: []byte(marker), Timestamp: 1, Type: wire.TypePut, Value: v}})
 		return r, cb, nil
 	}
